@@ -1063,7 +1063,14 @@ def rule_ed_codec(ctx: RuleContext, p: Program, fns: list[FuncInfo], rid: str) -
                   'edit of one token destroys the rest of the file')
     n = 0
     for fn in fns:
-        sites = [s for s in io_sites(fn) if not s['binary']]
+        allsites = io_sites(fn)
+        # binary I/O has no codec; the pair still counts as analysed (the bytes are decoded / encoded by the function itself: ED-NEWLINE)
+        for w in [s for s in allsites if s['write']]:
+            for r in [s for s in allsites if not s['write']]:
+                if w['binary'] or r['binary']:
+                    n += 1
+                    ctx.ok(rid, f'editor:{fn.qualname}', 'a binary side: the codec is in the function\'s own decode / encode', nontrivial=False)
+        sites = [s for s in allsites if not s['binary']]
         reads = [s for s in sites if not s['write']]
         writes = [s for s in sites if s['write']]
         if not reads or not writes:
